@@ -149,6 +149,12 @@ func raw[T safemath.Integer](op string, x, y *big.Int) (out string) {
 		return fmt.Sprint(int64(a))
 	case "tou8":
 		return fmt.Sprint(uint8(a))
+	case "len64":
+		return fmt.Sprint(bits.Len64(uint64(a)))
+	case "lz64":
+		return fmt.Sprint(bits.LeadingZeros64(uint64(a)))
+	case "tz64":
+		return fmt.Sprint(bits.TrailingZeros64(uint64(a)))
 	}
 
 	return "bad-op"
@@ -238,6 +244,10 @@ func exec(r *hx.Run, line string) string {
 		}
 
 		return got
+	case "search": // search FN KIND: boundary enumeration shared with the Lean driver (Hive/Model/SafeMathSearch.lean)
+		ans, _ := searchAnswer(f[1], f[2])
+
+		return ans
 	case "raw":
 		return dispatch("raw", f[2], f[1], parseBig(f[3]), parseBig(f[4]))
 	case "raw64": // raw64 mul X Y | raw64 div HI LO Y: math/bits itself (validates mul64 / div64 of GoInt.lean)
@@ -245,6 +255,17 @@ func exec(r *hx.Run, line string) string {
 			hi, lo := bits.Mul64(parseBig(f[2]).Uint64(), parseBig(f[3]).Uint64())
 
 			return fmt.Sprintf("%d %d", hi, lo)
+		}
+		if (f[1] == "add" || f[1] == "sub") && len(f) == 5 {
+			x, y, c := parseBig(f[2]).Uint64(), parseBig(f[3]).Uint64(), parseBig(f[4]).Uint64()&1
+			if f[1] == "add" {
+				sum, carry := bits.Add64(x, y, c)
+
+				return fmt.Sprintf("%d %d", sum, carry)
+			}
+			diff, borrow := bits.Sub64(x, y, c)
+
+			return fmt.Sprintf("%d %d", diff, borrow)
 		}
 		if f[1] == "div" && len(f) == 5 {
 			out := "panic"
@@ -305,6 +326,12 @@ func emit(r *hx.Run, line string) {
 	ans := exec(r, line)
 	r.Line(line, ans)
 	f := strings.Fields(line)
+	if f[0] == "search" {
+		r.Count("req:search:" + f[1])
+		r.Count("ans:search-" + strings.Fields(ans)[0])
+
+		return
+	}
 	if f[0] == "safe" || f[0] == "raw" || f[0] == "raw64" {
 		r.Count("req:" + f[0] + ":" + f[1])
 		if f[0] != "raw64" {
@@ -492,6 +519,8 @@ func main() {
 	for _, l := range gridLines {
 		emit(r, l)
 	}
+	// the boundary enumeration that the Lean driver runs over the regenerated model, here over the real functions
+	searchAll(r)
 	// exhaustive 8-bit
 	for _, kn := range []string{"u8", "i8"} {
 		k := kindOf(kn)
@@ -521,6 +550,9 @@ func main() {
 			emit(r, "raw not "+kn+" "+xs+" 0")
 			emit(r, "raw tou64 "+kn+" "+xs+" 0")
 			emit(r, "raw toi64 "+kn+" "+xs+" 0")
+			emit(r, "raw len64 "+kn+" "+xs+" 0")
+			emit(r, "raw lz64 "+kn+" "+xs+" 0")
+			emit(r, "raw tz64 "+kn+" "+xs+" 0")
 		}
 	}
 	r.Extra["exhaustive_8bit"] = true
@@ -558,7 +590,10 @@ func main() {
 			emit(r, "raw not "+k.name+" "+xs+" 0")
 			emit(r, "raw tou64 "+k.name+" "+xs+" 0")
 			emit(r, "raw toi64 "+k.name+" "+xs+" 0")
+			emit(r, "raw "+hx.Pick(r.Rng, []string{"len64", "lz64", "tz64"})+" "+k.name+" "+xs+" 0")
 			if k.name == "u64" {
+				emit(r, "raw64 add "+xs+" "+ys+" "+strconv.Itoa(r.Rng.Intn(2)))
+				emit(r, "raw64 sub "+xs+" "+ys+" "+strconv.Itoa(r.Rng.Intn(2)))
 				emit(r, "mulu64 "+xs+" "+ys)
 				d := operand(r.Rng, k)
 				if r.Rng.Chance(1, 3) { // quotient near 2^64
